@@ -291,25 +291,39 @@ func (c *Ctx) merge(es []edge) (*State, string) {
 		if !ok0 {
 			continue
 		}
-		// structural pointer cells
-		if pv, ok := es[0].st.ptrs[a]; ok {
-			agree := true
-			for _, e := range es[1:] {
+		// structural pointer cells: equal on all edges, or guarded alternatives
+		{
+			anyPtr, allPtr, agree := false, true, true
+			first, ok0p := es[0].st.ptrs[a]
+			for _, e := range es {
 				q, ok2 := e.st.ptrs[a]
-				if !ok2 || q.P == nil || pv.P == nil || q.P.String() != pv.P.String() || q.P.View != pv.P.View {
+				if ok2 {
+					anyPtr = true
+				} else {
+					allPtr = false
+				}
+				if !ok0p || !ok2 || q.P == nil || first.P == nil || q.P.String() != first.P.String() || q.P.View != first.P.View || len(q.Alts) > 0 || len(first.Alts) > 0 {
 					agree = false
 				}
 			}
-			if agree {
-				out.ptrs[a] = pv
-			} else {
-				out.poison[a] = true
-			}
-		} else {
-			for _, e := range es[1:] {
-				if _, ok2 := e.st.ptrs[a]; ok2 {
-					out.poison[a] = true
+			switch {
+			case anyPtr && allPtr && agree:
+				out.ptrs[a] = first
+			case anyPtr && allPtr:
+				var as []PAlt
+				for _, e := range es {
+					q := e.st.ptrs[a]
+					if len(q.Alts) > 0 {
+						for _, qa := range q.Alts {
+							as = append(as, PAlt{and(e.cond, qa.Cond), qa.P})
+						}
+					} else {
+						as = append(as, PAlt{e.cond, q.P})
+					}
 				}
+				out.ptrs[a] = Val{T: first.T, Alts: as}
+			case anyPtr:
+				out.poison[a] = true
 			}
 		}
 		for _, e := range es {
@@ -345,6 +359,19 @@ func (c *Ctx) merge(es []edge) (*State, string) {
 	for _, a := range es[0].st.order {
 		if _, ok := out.cells[a]; ok {
 			out.order = append(out.order, a)
+			continue
+		}
+		if r, ok := es[0].st.hrefs[a]; ok {
+			all := true
+			for _, e := range es[1:] {
+				if e.st.hrefs[a] != r {
+					all = false
+				}
+			}
+			if all {
+				out.hrefs[a] = r
+				out.order = append(out.order, a)
+			}
 		}
 	}
 	// havoc epochs
@@ -439,7 +466,7 @@ func (f *Frame) enterLoop(h *ssa.BasicBlock) {
 	env := f.specEnv(f.st, f.entrySt, true)
 	env.pre = f.st
 	for i, inv := range ls.Inv {
-		parts := splitConj(inv.Expr)
+		parts := c.eng.splitConjDeep(f.fc.Pkg, inv.Expr, 0)
 		for j, pe := range parts {
 			label, text := fmt.Sprintf("loop%d.%d", ord, i), inv.Text
 			if len(parts) > 1 {
@@ -474,6 +501,13 @@ func (f *Frame) enterLoop(h *ssa.BasicBlock) {
 		penv := f.specEnv(pre, f.entrySt, true)
 		for _, m := range ls.Modifies {
 			lv := penv.lvalue(m)
+			if len(lv.heapAll) > 0 {
+				lvs = append(lvs, lv)
+				for _, n := range lv.heapAll {
+					covered[n] = true
+				}
+				continue
+			}
 			if lv.path == nil {
 				continue
 			}
@@ -601,7 +635,7 @@ func (f *Frame) closeLoop(h *ssa.BasicBlock, cond string) {
 		env.pre = f.headerSt[h]
 	}
 	for i, inv := range ls.Inv {
-		parts := splitConj(inv.Expr)
+		parts := c.eng.splitConjDeep(f.fc.Pkg, inv.Expr, 0)
 		for j, pe := range parts {
 			label, text := fmt.Sprintf("loop%d.%d", ord, i), inv.Text
 			if len(parts) > 1 {
@@ -797,6 +831,14 @@ func (f *Frame) storeVal(p *Path, v Val) {
 	}
 	f.checkRaw(p, "store")
 	f.frameWritePath(p, f.curPos)
+	if len(v.Alts) > 0 {
+		if p.Kind == rootCell && len(p.Steps) == 0 {
+			f.st.ptrs[p.Cell] = v
+			f.st.cells[p.Cell] = "0"
+			return
+		}
+		panic(unsupported("storing a multi-alternative pointer into memory"))
+	}
 	if v.P != nil {
 		// storing a structural pointer: only pointers to whole heap objects can be materialised
 		if v.P.Kind == rootHeap && len(v.P.Steps) == 0 {
@@ -836,6 +878,11 @@ func (f *Frame) execInstr(in ssa.Instruction) {
 			p := &Path{Kind: rootHeap, T: et, Ref: r}
 			c.store(f.st, p, c.zero(et))
 			f.set(x, Val{T: x.Type(), S: r})
+			if x.Comment != "new" && x.Comment != "complit" && x.Comment != "slicelit" && x.Comment != "makeslice" && x.Comment != "" {
+				// a named local variable that escapes: contracts can still refer to it by name
+				f.st.hrefs[x] = r
+				f.st.order = append(f.st.order, x)
+			}
 			return
 		}
 		f.st.cells[x] = c.zero(et)
@@ -844,6 +891,10 @@ func (f *Frame) execInstr(in ssa.Instruction) {
 	case *ssa.Store:
 		addr := f.get(x.Addr)
 		v := f.get(x.Val)
+		if len(addr.Alts) > 0 {
+			f.storeAlts(f.derefAlts(addr, x.Pos(), "store"), v)
+			return
+		}
 		p := f.ptrPath(addr, x.Pos(), "store")
 		f.storeVal(p, v)
 	case *ssa.UnOp:
@@ -854,6 +905,14 @@ func (f *Frame) execInstr(in ssa.Instruction) {
 		f.execPhi(x)
 	case *ssa.FieldAddr:
 		base := f.get(x.X)
+		if len(base.Alts) > 0 {
+			var out []PAlt
+			for _, a := range f.derefAlts(base, x.Pos(), "fieldaddr") {
+				out = append(out, PAlt{a.Cond, a.P.extend(Step{Field: x.Field})})
+			}
+			f.set(x, mkAltsVal(x.Type(), out))
+			return
+		}
 		p := f.ptrPath(base, x.Pos(), "fieldaddr")
 		if p.View != nil {
 			q := *p
@@ -1003,6 +1062,10 @@ func (f *Frame) execUnOp(x *ssa.UnOp) {
 			if f.st.poison[v.P.Cell] {
 				panic(unsupported("pointer variable " + v.P.Cell.Comment + " holds different interior pointers on different paths"))
 			}
+		}
+		if len(v.Alts) > 0 {
+			f.set(x, f.loadAlts(f.derefAlts(v, x.Pos(), "load"), x.Type()))
+			return
 		}
 		p := f.ptrPath(v, x.Pos(), "load")
 		f.set(x, f.loadVal(p, x.Type()))
@@ -1211,6 +1274,9 @@ func (f *Frame) compare(op string, a, b Val, t types.Type, pos token.Pos) string
 }
 
 func (f *Frame) ptrTerm(v Val) string {
+	if len(v.Alts) > 0 {
+		return f.altTerm(v)
+	}
 	if v.P == nil {
 		return v.S
 	}
@@ -1328,12 +1394,27 @@ func (f *Frame) execIndexAddr(x *ssa.IndexAddr) {
 	switch u := x.X.Type().Underlying().(type) {
 	case *types.Slice:
 		f.boundsOblige("index", idx, fmt.Sprintf("(xlen %s)", base.S), x.Pos(), "index out of range")
+		if c.mode == "int" {
+			// ground instance of the arrat definition: lets quantified contract clauses (which index through arrat) fire on this access
+			hn, hs := c.heapNameArr(u.Elem())
+			arr := fmt.Sprintf("(select %s (sbase %s))", c.heap(f.st, hn, hs), base.S)
+			off := fmt.Sprintf("(xoff %s)", base.S)
+			c.assume(fmt.Sprintf("(= %s (select %s %s))", c.arrAt(c.sortOf(u.Elem()), arr, off, idx), arr, c.idxAdd(off, idx)))
+		}
 		p := &Path{Kind: rootArr, T: u.Elem(), Ref: fmt.Sprintf("(sbase %s)", base.S),
 			Steps: []Step{{IsIdx: true, Idx: c.idxAdd(fmt.Sprintf("(xoff %s)", base.S), idx)}}}
 		f.set(x, Val{T: x.Type(), P: p})
 	case *types.Pointer: // pointer to array
 		at := u.Elem().Underlying().(*types.Array)
 		f.boundsOblige("index", idx, c.idxLit(at.Len()), x.Pos(), "index out of range")
+		if len(base.Alts) > 0 {
+			var out []PAlt
+			for _, a := range f.derefAlts(base, x.Pos(), "indexaddr") {
+				out = append(out, PAlt{a.Cond, a.P.extend(Step{IsIdx: true, Idx: idx})})
+			}
+			f.set(x, mkAltsVal(x.Type(), out))
+			return
+		}
 		p := f.ptrPath(base, x.Pos(), "indexaddr")
 		f.set(x, Val{T: x.Type(), P: p.extend(Step{IsIdx: true, Idx: idx})})
 	default:
